@@ -3,6 +3,7 @@ package main
 import (
 	"fmt"
 	"go/token"
+	"go/types"
 	"strings"
 
 	"golang.org/x/tools/go/ssa"
@@ -11,206 +12,766 @@ import (
 func init() {
 	register(&propDef{
 		id: "C31", run: runC31, minOblig: 18,
-		explanation: "Decides the safety shape of re-keying in ssh/handshake.go: (locking) every WRITE of handshakeTransport.writeError, sentInitPacket, sentInitMsg, pendingPackets, writePacketsLeft, writeBytesLeft, userAuthComplete holds t.mu (resetWriteThresholds is checked at its call sites; constructors are exempt); (no application packet during our key exchange) in writePacket the direct pushPacket is unreachable from function entry and from every writeCond.Wait without crossing a 'sentInitMsg == nil' edge, KEXINIT/NEWKEYS from the application are refused before anything else, and packets are queued only while len(pendingPackets) < maxPendingPackets (evaluated); (completion) in kexLoop, after enterKeyExchange, the clearing of sentInitMsg, the in-order flush of pendingPackets, its truncation and the wake-up of blocked writers all execute with t.mu held without an intervening Unlock, and the flush iterates the queue by increasing index; (wake-ups) writeCond is only ever Broadcast, never Signal (several writers can be parked), and every store to writeError is followed by a Broadcast before t.mu is released; (shutdown) readLoop's exit records the error and closes startKex on every path. NOT decided: exactly-once delivery and per-writer order under all schedules, absence of deadlock in general (liveness).",
-		assumptions: []string{"sync.Cond.Wait re-acquires the lock; a deferred Unlock releases at return"},
+		explanation: "Decides the safety shape of re-keying in ssh/handshake.go. All ordering rules are evaluated on the anchor function (writePacket, kexLoop, readLoop) with the helpers of package ssh that touch the gating state expanded in place per call site (depth 4, deferred calls run at the return points, a helper's nil/non-nil error or constant bool result is remembered along the path so that the caller's test of it is folded); events are recognised by the handshakeTransport field or the connection method they touch, not by function, receiver or variable names. (locking) every WRITE of handshakeTransport.writeError, sentInitPacket, sentInitMsg, pendingPackets, writePacketsLeft, writeBytesLeft, userAuthComplete holds t.mu, either in the function itself or at every static call site of an unexported helper; a helper that is also called on an object still under construction (a fresh allocation in the caller) is accepted when every other call site holds t.mu. (no application packet during our key exchange) in writePacket no packet can be handed to t.conn.writePacket from function entry or after any writeCond.Wait without crossing a branch edge that establishes sentInitMsg == nil (directly or through a bool predicate helper); with p[0] = KEXINIT or NEWKEYS neither the connection write nor the append to pendingPackets is reachable; with a key exchange in progress the append is reachable exactly for len(pendingPackets) < maxPendingPackets (evaluated for 0, 1, max-1, max, max+1). (completion) in kexLoop: sentInitMsg is reset to nil only after the routine that sends NEWKEYS has returned, and after that return always before kexLoop exits or sends the next NEWKEYS; the critical section of t.mu in which it is reset also, on every path from its Lock to its Unlock, flushes pendingPackets (a loop handing queue elements to the connection by index 0,1,2.. or by popping the front, bounded by the queue length, reading the queue before it is truncated) and stores an empty pendingPackets; after the reset a writeCond.Broadcast happens before kexLoop takes t.mu again or returns. (wake-ups) writeCond is only ever Broadcast, never Signal, and every store to writeError is followed by a Broadcast before the goroutine takes t.mu again or leaves its top-level function (followed through the return of unexported helpers into each caller). (shutdown) every path through readLoop to its exit stores writeError under the lock (or skips the store only because writeError is already set or readError is nil) and closes startKex. NOT decided: exactly-once delivery and per-writer order under all schedules, absence of deadlock in general (liveness), a flush that is skipped by an explicit emptiness test.",
+		assumptions: []string{"sync.Cond.Wait re-acquires the lock; a deferred Unlock releases at return", "helpers deeper than 4 calls below the anchor function are treated as opaque"},
 	})
-	tech("C31", "lockset analysis (write-guard table, critical-section continuity), must-cross rules from Cond.Wait points, barrier-before-sink path rules, finite-domain evaluation of the queue bound")
+	tech("C31", "lockset analysis (write-guard table with call-site inheritance), context-sensitive interprocedural flow graph with must-cross / barrier-before-sink searches that fold tests of helper results, must-hold analysis of t.mu on that graph, finite-domain evaluation of the reserved packet types and the queue bound across helpers")
+}
+
+type c31Run struct {
+	c       *Ctx
+	fns     []*ssa.Function
+	rel     map[*ssa.Function]int
+	graphs  map[*ssa.Function]*c31Graph
+	invoked map[string]bool
+}
+
+var c31Fields = map[string]bool{"mu": true, "writeCond": true, "writeError": true, "sentInitMsg": true, "sentInitPacket": true,
+	"pendingPackets": true, "startKex": true, "readError": true, "writeBytesLeft": true, "writePacketsLeft": true, "userAuthComplete": true}
+
+// relevant: f (or a helper below it) touches the kex gating state, t.mu,
+// writeCond, or hands a packet to the connection. Other callees are opaque.
+func (r *c31Run) relevant(f *ssa.Function) bool {
+	switch r.rel[f] {
+	case 1:
+		return false // cycle
+	case 2:
+		return true
+	case 3:
+		return false
+	}
+	r.rel[f] = 1
+	res := false
+	allInstrs(f, func(in ssa.Instruction) {
+		if res {
+			return
+		}
+		switch x := in.(type) {
+		case *ssa.FieldAddr:
+			if t, fld, _, ok := fieldOf(x); ok && t == c31T && c31Fields[fld] {
+				res = true
+			}
+		case *ssa.Field:
+			if t, fld, _, ok := fieldOf(x); ok && t == c31T && c31Fields[fld] {
+				res = true
+			}
+		}
+		if cc := callCommon(in); cc != nil {
+			if cc.IsInvoke() {
+				if cc.Method.Name() == "writePacket" && c31IsFieldLoad(cc.Value, "conn") {
+					res = true
+				}
+			} else if callee := cc.StaticCallee(); callee != nil && callee.Pkg == f.Pkg && len(callee.Blocks) > 0 && callee != f {
+				if r.relevant(callee) {
+					res = true
+				}
+			}
+		}
+	})
+	if res {
+		r.rel[f] = 2
+	} else {
+		r.rel[f] = 3
+	}
+	return res
+}
+
+func (r *c31Run) graph(f *ssa.Function) *c31Graph {
+	if g, ok := r.graphs[f]; ok {
+		return g
+	}
+	g := c31Build(f, r.relevant)
+	r.graphs[f] = g
+	return g
 }
 
 func runC31(c *Ctx) {
-	fns := c.funcsOfPkg("ssh")
-	exempt := map[string]string{
-		"newHandshakeTransport":                      "constructor, object not yet shared",
-		"newClientTransport":                         "constructor, object not yet shared",
-		"newServerTransport":                         "constructor, object not yet shared",
-		"(*handshakeTransport).resetWriteThresholds": "caller holds t.mu (checked at every call site)",
-	}
-	for _, fld := range []string{"writeError", "sentInitPacket", "sentInitMsg", "pendingPackets", "writePacketsLeft", "writeBytesLeft", "userAuthComplete"} {
-		n := c.checkGuarded("C31.lock", fns, guardSpec{"handshakeTransport", fld, ".mu", true}, exempt)
-		c.check(n > 0, "C31.lock", "handshakeTransport."+fld, nil, fmt.Sprintf("%d writing functions", n), "no access found (anchor lost)")
-	}
-	// call sites of resetWriteThresholds hold the lock (or are constructors)
-	for _, f := range fns {
-		for _, ci := range callsNamed(f, "(*ssh.handshakeTransport).resetWriteThresholds") {
-			nm := fnName(f)
-			if strings.HasPrefix(nm, "new") {
-				c.ok("C31.lock", "resetWriteThresholds called from "+nm, ci, "constructor")
-				continue
-			}
-			li := computeLocks(f)
-			c.check(li.at(ci).holds("", ".mu"), "C31.lock", "resetWriteThresholds called from "+nm, ci, "t.mu held at the call", "resetWriteThresholds is called without t.mu")
-		}
-	}
-	isWait := func(in ssa.Instruction) bool { return isCallTo(in, "(*sync.Cond).Wait") }
-	// ---- writePacket
+	r := &c31Run{c: c, fns: c.funcsOfPkg("ssh"), rel: map[*ssa.Function]int{}, graphs: map[*ssa.Function]*c31Graph{}}
+	r.lockRules()
 	if f := c.fn("ssh", "(*handshakeTransport).writePacket"); f != nil {
-		push := callsNamed(f, "(*ssh.handshakeTransport).pushPacket")
-		nilYes, _ := func() (y, n []edge) {
-			allInstrs(f, func(in ssa.Instruction) {
-				if u, ok := in.(*ssa.UnOp); ok && u.Op == token.MUL && isField(u, "handshakeTransport", "sentInitMsg") {
-					yy, nn := edgesWhere(u, isNil)
-					y = append(y, yy...)
-					n = append(n, nn...)
-				}
-			})
-			return
-		}()
-		if len(push) != 1 || len(nilYes) == 0 {
-			c.fail("C31.no-push-during-kex", "(*handshakeTransport).writePacket", f, "pushPacket call or sentInitMsg test not found")
-		} else {
-			cut := edgeSet{}
-			cut.addAll(nilYes)
-			bad := ""
-			if pathFromEntry(push[0], cut) {
-				bad = "pushPacket is reachable from function entry without passing sentInitMsg == nil"
-			}
-			nWait := 0
-			allInstrs(f, func(in ssa.Instruction) {
-				if isWait(in) {
-					nWait++
-					if pathBetween(in, push[0], cut) {
-						bad = "after waking up from writeCond.Wait the packet can be pushed without re-checking sentInitMsg == nil (a packet could be written between our KEXINIT and NEWKEYS)"
+		r.writePacketRules(f)
+	}
+	if f := c.fn("ssh", "(*handshakeTransport).kexLoop"); f != nil {
+		r.kexCompleteRule(f)
+	}
+	r.wakeRules()
+	if f := c.fn("ssh", "(*handshakeTransport).readLoop"); f != nil {
+		r.shutdownRule(f)
+	}
+}
+
+// ---------------------------------------------------------------------------
+// locking
+
+func (r *c31Run) lockRules() {
+	c := r.c
+	guarded := []string{"writeError", "sentInitPacket", "sentInitMsg", "pendingPackets", "writePacketsLeft", "writeBytesLeft", "userAuthComplete"}
+	// An unexported helper that writes guarded fields of its transport parameter
+	// and is called both with t.mu held and on a transport still under
+	// construction (a fresh allocation in the caller, not yet shared): the
+	// helper is accepted when EVERY static call site is one or the other.
+	exempt := map[string]string{}
+	for _, g := range r.fns {
+		if g.Object() == nil || g.Object().Exported() || len(g.Blocks) == 0 {
+			continue
+		}
+		k := -1
+		for _, fld := range guarded {
+			for _, st := range storesTo(g, c31T, fld) {
+				if p, ok := st.Addr.(*ssa.FieldAddr).X.(*ssa.Parameter); ok {
+					for i, q := range g.Params {
+						if q == p {
+							k = i
+						}
 					}
 				}
+			}
+		}
+		if k < 0 {
+			continue
+		}
+		sites := c.callersOf(g)
+		nFresh, allOK := 0, len(sites) > 0
+		type siteV struct {
+			ci    ssa.CallInstruction
+			fresh bool
+		}
+		var vs []siteV
+		for _, ci := range sites {
+			if _, isCall := ci.(*ssa.Call); !isCall || k >= len(ci.Common().Args) {
+				allOK = false
+				break
+			}
+			arg := ci.Common().Args[k]
+			if al, isAlloc := stripConv(arg).(*ssa.Alloc); isAlloc && typeName(al.Type()) == c31T {
+				nFresh++
+				vs = append(vs, siteV{ci, true})
+				continue
+			}
+			base := accessPath(arg)
+			caller := ci.Parent()
+			held := base != "" && computeLocks(caller).at(ci).holds(base, ".mu")
+			if !held && base != "" {
+				if up, ok := c.entryLocks(caller, 0); ok && up.holds(base, ".mu") {
+					held = true
+				}
+			}
+			if !held {
+				allOK = false
+				break
+			}
+			vs = append(vs, siteV{ci, false})
+		}
+		if !allOK || nFresh == 0 {
+			continue // all-locked helpers are handled by the engine's call-site inheritance; others are reported there
+		}
+		exempt[fnName(g)] = "every call site holds t.mu or passes a transport still under construction (checked at each call site)"
+		for _, v := range vs {
+			what := "t.mu held at the call"
+			if v.fresh {
+				what = "the transport is a fresh allocation of the caller, not yet shared"
+			}
+			c.ok("C31.lock", fnName(g)+" called from "+fnName(v.ci.Parent()), v.ci, what)
+		}
+	}
+	for _, fld := range guarded {
+		n := c.checkGuarded("C31.lock", r.fns, guardSpec{c31T, fld, ".mu", true}, exempt)
+		c.check(n > 0, "C31.lock", c31T+"."+fld, nil, fmt.Sprintf("%d writing functions", n), "no access found (anchor lost)")
+	}
+}
+
+// ---------------------------------------------------------------------------
+// writePacket
+
+func c31IsConnWrite(n *c31Node) bool { _, ok := c31ConnWrite(n); return ok }
+
+// queueAppend: a store to pendingPackets that does not empty it.
+func c31IsQueueAppend(n *c31Node) bool {
+	v, ok := c31Store(n, "pendingPackets")
+	return ok && !c31ZeroLen(v)
+}
+
+// envCuts: bind values in every function of the graph, carry bound values
+// into helper parameters (when every copy of the helper receives the same
+// value) and out of helpers whose every return evaluates to the same value,
+// and return the contradicted branch edges.
+func (r *c31Run) envCuts(g *c31Graph, bind func(e *penv, fn *ssa.Function)) edgeSet {
+	e := newEnv()
+	for _, fn := range g.fns {
+		bind(e, fn)
+	}
+	for round := 0; round < 3; round++ {
+		for _, fn := range g.fns {
+			if fn != g.root {
+				for k, p := range fn.Params {
+					if _, done := e.vals[p]; done {
+						continue
+					}
+					var val int64
+					n, agree := 0, true
+					for _, ctx := range g.ctxs {
+						if ctx.fn != fn || ctx.call == nil {
+							continue
+						}
+						cc := callCommon(ctx.call)
+						if cc == nil || cc.IsInvoke() || k >= len(cc.Args) {
+							agree = false
+							break
+						}
+						v, ok := e.eval(cc.Args[k])
+						if !ok || (n > 0 && v != val) {
+							agree = false
+							break
+						}
+						val = v
+						n++
+					}
+					if agree && n > 0 {
+						e.bind(p, val)
+					}
+				}
+			}
+			allInstrs(fn, func(in ssa.Instruction) {
+				call, ok := in.(*ssa.Call)
+				if !ok {
+					return
+				}
+				if _, done := e.vals[call]; done {
+					return
+				}
+				callee := call.Call.StaticCallee()
+				if callee == nil || len(callee.Blocks) == 0 || callee.Pkg != g.root.Pkg || callee.Signature.Results().Len() != 1 {
+					return
+				}
+				rs := returnsOf(callee)
+				var val int64
+				for i, rt := range rs {
+					n, ok := e.eval(retVal(rt, 0))
+					if !ok || (i > 0 && n != val) {
+						return
+					}
+					val = n
+				}
+				if len(rs) > 0 {
+					e.bind(call, val)
+				}
 			})
-			c.check(bad == "" && nWait >= 1, "C31.no-push-during-kex", "(*handshakeTransport).writePacket", push[0], fmt.Sprintf("the direct write happens only with sentInitMsg == nil, re-established after each of the %d waits", nWait), bad)
 		}
-		// KEXINIT / NEWKEYS refused
-		kexInit, _ := pkgConstInt(c, "ssh", "msgKexInit")
-		newKeys, _ := pkgConstInt(c, "ssh", "msgNewKeys")
+	}
+	cut := edgeSet{}
+	for _, fn := range g.fns {
+		for k := range e.cuts(fn) {
+			cut[k] = true
+		}
+	}
+	return cut
+}
+
+func (r *c31Run) writePacketRules(f *ssa.Function) {
+	c := r.c
+	g := r.graph(f)
+	name := fnName(f)
+	if len(f.Params) < 2 {
+		c.fail("C31.no-push-during-kex", name, f, "writePacket has no packet parameter")
+		return
+	}
+	pkt := ssa.Value(f.Params[1])
+	isPkt := func(b ssa.Value) bool { return c.origin(b) == pkt }
+	writes := g.where(c31IsConnWrite)
+	appends := g.where(c31IsQueueAppend)
+	waits := g.where(func(n *c31Node) bool { return c31CondOp(n, "Wait") })
+	gates := g.nilEdges("sentInitMsg", true)
+
+	// ---- no packet reaches the connection while our kex is in progress
+	switch {
+	case len(writes) == 0:
+		c.fail("C31.no-push-during-kex", name, f, "no hand-over of a packet to t.conn.writePacket found in writePacket or its helpers (anchor lost)")
+	case len(gates) == 0:
+		c.fail("C31.no-push-during-kex", name, writes[0], "no branch on sentInitMsg == nil found in writePacket or its helpers: nothing keeps application packets out of a running key exchange")
+	default:
+		cut := edgeSet{}
+		cut.addAll(gates)
 		bad := ""
+		var at poser = writes[0]
+		if n := g.search([]*c31Node{g.entry}, false, cut, nil, c31IsConnWrite); n != nil {
+			bad, at = "a packet can be handed to the connection without passing sentInitMsg == nil (a packet could be written between our KEXINIT and NEWKEYS)", n
+		}
+		for _, w := range waits {
+			if n := g.search([]*c31Node{w}, true, cut, nil, c31IsConnWrite); n != nil {
+				bad, at = "after waking up from writeCond.Wait the packet can be pushed without re-checking sentInitMsg == nil (a packet could be written between our KEXINIT and NEWKEYS)", n
+			}
+		}
+		if bad == "" && len(waits) == 0 {
+			bad = "no writeCond.Wait found: a writer that finds the pending queue full has nothing to block on"
+		}
+		c.check(bad == "", "C31.no-push-during-kex", name, at, fmt.Sprintf("the direct write happens only with sentInitMsg == nil, re-established after each of the %d waits", len(waits)), bad)
+	}
+
+	// ---- KEXINIT / NEWKEYS from the application are refused
+	kexInit, ok1 := pkgConstInt(c, "ssh", "msgKexInit")
+	newKeys, ok2 := pkgConstInt(c, "ssh", "msgNewKeys")
+	if !ok1 || !ok2 || len(writes) == 0 || len(appends) == 0 {
+		c.fail("C31.reserved-types", name, f, "message type constants, the connection write or the queue append not found (anchor lost)")
+	} else {
+		bad := ""
+		var at poser = f
 		for _, code := range []int64{kexInit, newKeys} {
-			e := newEnv()
-			e.bindIndexLoads(f, func(b ssa.Value) bool { return b == ssa.Value(f.Params[1]) }, 0, code)
-			e.solve(f)
-			for _, ci := range push {
-				if e.reach[ci.Block()] {
-					bad = fmt.Sprintf("application packet of type %d can be written", code)
-				}
+			cut := r.envCuts(g, func(e *penv, fn *ssa.Function) { e.bindIndexLoads(fn, isPkt, 0, code) })
+			if n := g.search([]*c31Node{g.entry}, false, cut, nil, c31IsConnWrite); n != nil {
+				bad, at = fmt.Sprintf("application packet of type %d can be written", code), n
 			}
-			for _, st := range storesTo(f, "handshakeTransport", "pendingPackets") {
-				if e.reach[st.Block()] {
-					bad = fmt.Sprintf("application packet of type %d can be queued", code)
-				}
+			if n := g.search([]*c31Node{g.entry}, false, cut, nil, c31IsQueueAppend); n != nil {
+				bad, at = fmt.Sprintf("application packet of type %d can be queued", code), n
 			}
 		}
-		c.check(bad == "", "C31.reserved-types", "(*handshakeTransport).writePacket", f, "KEXINIT and NEWKEYS from the application are refused", bad)
-		// queue bound
-		maxP, okm := pkgConstInt(c, "ssh", "maxPendingPackets")
-		var app ssa.Instruction
-		for _, st := range storesTo(f, "handshakeTransport", "pendingPackets") {
-			app = st
-		}
-		if !okm || app == nil {
-			c.fail("C31.queue-bound", "(*handshakeTransport).writePacket", f, "queue append or maxPendingPackets not found")
-		} else {
-			bad := ""
-			for _, n := range []int64{0, 1, maxP - 1, maxP, maxP + 1} {
-				e := newEnv()
-				allInstrs(f, func(in ssa.Instruction) {
-					if call, ok := in.(*ssa.Call); ok && calleeName(&call.Call) == "builtin:len" && isField(call.Call.Args[0], "handshakeTransport", "pendingPackets") {
+		c.check(bad == "", "C31.reserved-types", name, at, "KEXINIT and NEWKEYS from the application are refused", bad)
+	}
+
+	// ---- queue bound
+	maxP, okm := pkgConstInt(c, "ssh", "maxPendingPackets")
+	if !okm || len(appends) == 0 {
+		c.fail("C31.queue-bound", name, f, "queue append or maxPendingPackets not found")
+	} else {
+		bad := ""
+		for _, n := range []int64{0, 1, maxP - 1, maxP, maxP + 1} {
+			cut := r.envCuts(g, func(e *penv, fn *ssa.Function) {
+				allInstrs(fn, func(in ssa.Instruction) {
+					if call, ok := in.(*ssa.Call); ok && calleeName(&call.Call) == "builtin:len" && c31IsFieldLoad(call.Call.Args[0], "pendingPackets") {
 						e.bind(call, n)
 					}
 				})
-				e.bindNilTests(f, func(v ssa.Value) bool { return isField(v, "handshakeTransport", "sentInitMsg") }, false)
-				e.bindNilTests(f, func(v ssa.Value) bool { return isField(v, "handshakeTransport", "writeError") }, true)
-				e.bindIndexLoads(f, func(b ssa.Value) bool { return b == ssa.Value(f.Params[1]) }, 0, 94)
-				cut := e.cuts(f)
-				got := reach([]*ssa.BasicBlock{f.Blocks[0]}, cut)[app.Block()]
-				if got != (n < maxP) {
-					bad = fmt.Sprintf("queue length %d (limit %d): packet queued=%v", n, maxP, got)
+				e.bindNilTests(fn, func(v ssa.Value) bool { return c31IsFieldLoad(v, "sentInitMsg") }, false)
+				e.bindNilTests(fn, func(v ssa.Value) bool { return c31IsFieldLoad(v, "writeError") }, true)
+				e.bindIndexLoads(fn, isPkt, 0, 94)
+			})
+			got := g.search([]*c31Node{g.entry}, false, cut, nil, c31IsQueueAppend) != nil
+			if got != (n < maxP) {
+				bad = fmt.Sprintf("queue length %d (limit %d): packet queued=%v", n, maxP, got)
+			}
+		}
+		c.check(bad == "", "C31.queue-bound", name, appends[0], fmt.Sprintf("packets are queued only while fewer than %d are pending", maxP), bad)
+	}
+}
+
+// ---------------------------------------------------------------------------
+// kexLoop: completion of a key exchange
+
+// c31IsNewKeysWrite: t.conn.writePacket([]byte{msgNewKeys}).
+func c31IsNewKeysWrite(n *c31Node, newKeys int64) bool {
+	arg, ok := c31ConnWrite(n)
+	if !ok {
+		return false
+	}
+	_, arg = c31Resolve(n.ctx, arg)
+	sl, ok := arg.(*ssa.Slice)
+	if !ok {
+		return false
+	}
+	al, ok := sl.X.(*ssa.Alloc)
+	if !ok || al.Referrers() == nil {
+		return false
+	}
+	for _, ref := range *al.Referrers() {
+		ia, ok := ref.(*ssa.IndexAddr)
+		if !ok || ia.Referrers() == nil {
+			continue
+		}
+		if k, ok := constInt(ia.Index); !ok || k != 0 {
+			continue
+		}
+		for _, rr := range *ia.Referrers() {
+			if st, ok := rr.(*ssa.Store); ok && st.Addr == ssa.Value(ia) {
+				if k, ok := constInt(st.Val); ok && k == newKeys {
+					return true
 				}
 			}
-			c.check(bad == "", "C31.queue-bound", "(*handshakeTransport).writePacket", app, fmt.Sprintf("packets are queued only while fewer than %d are pending", maxP), bad)
 		}
 	}
-	// ---- kexLoop completion section
-	if f := c.fn("ssh", "(*handshakeTransport).kexLoop"); f != nil {
-		li := computeLocks(f)
-		eke := callsNamed(f, "(*ssh.handshakeTransport).enterKeyExchange")
-		var clr *ssa.Store
-		for _, st := range storesTo(f, "handshakeTransport", "sentInitMsg") {
-			if isNilConst(st.Val) {
-				clr = st
+	return false
+}
+
+// c31Flush describes one hand-over of a pendingPackets element to the connection.
+type c31Flush struct {
+	write  *c31Node // the connection write
+	snap   *c31Node // the load of t.pendingPackets whose elements are flushed
+	head   *c31Node // first node of the flush loop's header
+	detail string   // non-empty: why the iteration is not front-to-back over the whole queue
+}
+
+// c31QueueSnapshot: q is (a prefix-preserving view of) a load of pendingPackets.
+func (r *c31Run) queueSnapshot(g *c31Graph, ctx *c31Ctx, q ssa.Value) (*c31Node, bool) {
+	for i := 0; i < 6; i++ {
+		ctx, q = c31Resolve(ctx, q)
+		if sl, ok := q.(*ssa.Slice); ok && sl.Low == nil {
+			q = sl.X
+			continue
+		}
+		break
+	}
+	if u, ok := q.(*ssa.UnOp); ok && c31IsFieldLoad(u, "pendingPackets") {
+		return g.nodeOf(ctx, u), true
+	}
+	return nil, false
+}
+
+// flushOf: is the connection write w the hand-over of an element of the
+// pending queue, and how does the enclosing loop walk the queue?
+func (r *c31Run) flushOf(g *c31Graph, w *c31Node) (c31Flush, bool) {
+	arg, _ := c31ConnWrite(w)
+	ctx, v := c31Resolve(w.ctx, arg)
+	ld, ok := v.(*ssa.UnOp)
+	if !ok || ld.Op != token.MUL {
+		return c31Flush{}, false
+	}
+	ia, ok := ld.X.(*ssa.IndexAddr)
+	if !ok {
+		return c31Flush{}, false
+	}
+	fl := c31Flush{write: w}
+	h := innermostLoopHeader(ia.Block())
+	lenOf := func(x ssa.Value, q ssa.Value) bool {
+		call, ok := x.(*ssa.Call)
+		return ok && calleeName(&call.Call) == "builtin:len" && call.Call.Args[0] == q
+	}
+	headerCond := func() *ssa.BinOp {
+		if h == nil || len(h.Instrs) == 0 {
+			return nil
+		}
+		iff, ok := h.Instrs[len(h.Instrs)-1].(*ssa.If)
+		if !ok {
+			return nil
+		}
+		bo, _ := iff.Cond.(*ssa.BinOp)
+		return bo
+	}
+	// form 1: q[i], i = 0,1,2,.. (for i := 0; i < len(q); i++ / for i := range len(q) / for _, p := range q)
+	if snap, ok := r.queueSnapshot(g, ctx, ia.X); ok {
+		fl.snap = snap
+		if h == nil {
+			fl.detail = "a queue element is written outside of a loop"
+			return fl, true
+		}
+		fl.head = g.nodeOf(ctx, h.Instrs[0])
+		var ind *ssa.Phi
+		step := func(v ssa.Value, ph *ssa.Phi) bool {
+			bo, ok := v.(*ssa.BinOp)
+			if !ok || bo.Op != token.ADD || bo.X != ssa.Value(ph) {
+				return false
+			}
+			k, ok := constInt(bo.Y)
+			return ok && k == 1
+		}
+		classify := func(ph *ssa.Phi) (int64, bool) {
+			if len(ph.Edges) != 2 || ph.Block() != h {
+				return 0, false
+			}
+			for i := 0; i < 2; i++ {
+				if k, ok := constInt(ph.Edges[i]); ok && step(ph.Edges[1-i], ph) {
+					return k, true
+				}
+			}
+			return 0, false
+		}
+		var idxVal ssa.Value = ia.Index
+		switch x := ia.Index.(type) {
+		case *ssa.Phi:
+			if k, ok := classify(x); ok && k == 0 {
+				ind = x
+			}
+		case *ssa.BinOp:
+			if ph, ok := x.X.(*ssa.Phi); ok && step(x, ph) {
+				if k, ok := classify(ph); ok && k == -1 && (ph.Edges[0] == ssa.Value(x) || ph.Edges[1] == ssa.Value(x)) {
+					ind = ph
+				}
 			}
 		}
-		var trunc *ssa.Store
-		for _, st := range storesTo(f, "handshakeTransport", "pendingPackets") {
-			trunc = st
+		if ind == nil {
+			fl.detail = "the pending queue is not flushed front to back (the element index is not a counter running up from 0 in steps of 1)"
+			return fl, true
 		}
-		push := callsNamed(f, "(*ssh.handshakeTransport).pushPacket")
-		var bc ssa.Instruction
-		allInstrs(f, func(in ssa.Instruction) {
-			if isCallTo(in, "(*sync.Cond).Broadcast") {
-				bc = in
+		// the loop runs while idx < len(q)
+		bo := headerCond()
+		okBound := false
+		if bo != nil {
+			switch {
+			case bo.Op == token.LSS && bo.X == idxVal && r.isLenOfQueue(g, ctx, bo.Y, ia.X):
+				okBound = true
+			case bo.Op == token.GTR && bo.Y == idxVal && r.isLenOfQueue(g, ctx, bo.X, ia.X):
+				okBound = true
+			case bo.Op == token.NEQ && (bo.X == idxVal && r.isLenOfQueue(g, ctx, bo.Y, ia.X) || bo.Y == idxVal && r.isLenOfQueue(g, ctx, bo.X, ia.X)):
+				okBound = true
 			}
-		})
-		if len(eke) != 1 || clr == nil || trunc == nil || len(push) != 1 || bc == nil {
-			c.fail("C31.kex-complete", "(*handshakeTransport).kexLoop", f, "anchors not found (enterKeyExchange, sentInitMsg = nil, flush, truncate, Broadcast)")
-		} else {
-			held := true
-			for _, in := range []ssa.Instruction{clr, push[0], trunc} {
-				if !li.at(in).holds("", ".mu") {
+		}
+		if !okBound {
+			fl.detail = "the flush loop is not bounded by the length of the pending queue (queued packets could be skipped)"
+		}
+		return fl, true
+	}
+	// form 2: for len(q) > 0 { p := q[0]; q = q[1:]; ... }
+	if ph, ok := ia.X.(*ssa.Phi); ok && h != nil && ph.Block() == h && len(ph.Edges) == 2 {
+		for i := 0; i < 2; i++ {
+			snap, ok := r.queueSnapshot(g, ctx, ph.Edges[i])
+			if !ok {
+				continue
+			}
+			fl.snap = snap
+			fl.head = g.nodeOf(ctx, h.Instrs[0])
+			sl, isSl := ph.Edges[1-i].(*ssa.Slice)
+			popOK := isSl && sl.X == ssa.Value(ph) && sl.High == nil && sl.Low != nil
+			if popOK {
+				k, isK := constInt(sl.Low)
+				popOK = isK && k == 1
+			}
+			k0, isK0 := constInt(ia.Index)
+			if !popOK || !isK0 || k0 != 0 {
+				fl.detail = "the pending queue is not flushed front to back (expected q[0] followed by q = q[1:])"
+				return fl, true
+			}
+			bo := headerCond()
+			okBound := bo != nil && (bo.Op == token.GTR && lenOf(bo.X, ph) && c31IsZero(bo.Y) ||
+				bo.Op == token.LSS && lenOf(bo.Y, ph) && c31IsZero(bo.X) ||
+				bo.Op == token.NEQ && (lenOf(bo.X, ph) && c31IsZero(bo.Y) || lenOf(bo.Y, ph) && c31IsZero(bo.X)))
+			if !okBound {
+				fl.detail = "the flush loop does not run until the pending queue is empty (queued packets could be skipped)"
+			}
+			return fl, true
+		}
+	}
+	return c31Flush{}, false
+}
+
+func c31IsZero(v ssa.Value) bool { k, ok := constInt(v); return ok && k == 0 }
+
+// isLenOfQueue: v is len(q') where q' denotes the same queue value as q.
+func (r *c31Run) isLenOfQueue(g *c31Graph, ctx *c31Ctx, v ssa.Value, q ssa.Value) bool {
+	call, ok := v.(*ssa.Call)
+	if !ok || calleeName(&call.Call) != "builtin:len" {
+		return false
+	}
+	if call.Call.Args[0] == q {
+		return true
+	}
+	a, okA := r.queueSnapshot(g, ctx, call.Call.Args[0])
+	b, okB := r.queueSnapshot(g, ctx, q)
+	return okA && okB && a == b && a != nil
+}
+
+func (r *c31Run) kexCompleteRule(f *ssa.Function) {
+	c := r.c
+	g := r.graph(f)
+	name := fnName(f)
+	const rule = "C31.kex-complete"
+	isClear := func(n *c31Node) bool { v, ok := c31Store(n, "sentInitMsg"); return ok && isNilConst(v) }
+	isTrunc := func(n *c31Node) bool { v, ok := c31Store(n, "pendingPackets"); return ok && c31ZeroLen(v) }
+	isExit := func(n *c31Node) bool { return n == g.exit }
+	clears := g.where(isClear)
+	truncs := g.where(isTrunc)
+	var flushes []c31Flush
+	for _, w := range g.where(c31IsConnWrite) {
+		if fl, ok := r.flushOf(g, w); ok {
+			flushes = append(flushes, fl)
+		}
+	}
+	newKeys, okNK := pkgConstInt(c, "ssh", "msgNewKeys")
+	nks := g.where(func(n *c31Node) bool { return okNK && c31IsNewKeysWrite(n, newKeys) })
+
+	if len(clears) == 0 {
+		c.fail(rule, name, f, "sentInitMsg is never reset to nil in kexLoop or its helpers: after a completed key exchange application writers keep queueing and blocking as if it were still in progress")
+		return
+	}
+	// ---- (a) the reset happens only after, and always after, the routine that sends NEWKEYS
+	if len(nks) == 0 {
+		c.fail(rule, name+" kex before reset", f, "the NEWKEYS write (t.conn.writePacket([]byte{msgNewKeys})) was not found below kexLoop (anchor lost)")
+	} else {
+		kexCtx := map[*c31Ctx]bool{}
+		inRoot := false
+		for _, n := range nks {
+			if n.ctx.parent == nil {
+				inRoot = true
+			}
+			for x := n.ctx; x != nil && x.parent != nil; x = x.parent {
+				kexCtx[x] = true
+			}
+		}
+		isNK := func(n *c31Node) bool { return okNK && c31IsNewKeysWrite(n, newKeys) }
+		kexDone := func(n *c31Node) bool {
+			if _, isRet := n.in.(*ssa.Return); isRet && kexCtx[n.ctx] {
+				return true
+			}
+			return inRoot && isNK(n)
+		}
+		var outer []*c31Node
+		for _, n := range g.where(kexDone) {
+			if n.ctx.parent == nil || !kexCtx[n.ctx.parent] {
+				outer = append(outer, n)
+			}
+		}
+		bad := ""
+		var at poser = clears[0]
+		if n := g.search([]*c31Node{g.entry}, false, nil, kexDone, isClear); n != nil {
+			bad, at = "sentInitMsg can be reset although the key exchange routine (which sends NEWKEYS) has not run: application packets could be written between our KEXINIT and NEWKEYS", n
+		} else if n := g.search(clears, true, nil, kexDone, isClear); n != nil {
+			bad, at = "sentInitMsg can be reset a second time without another key exchange having run", n
+		} else if n := g.search(outer, true, nil, isClear, func(n *c31Node) bool { return isExit(n) || isNK(n) }); n != nil {
+			bad = "after the key exchange routine returns kexLoop can exit or start the next exchange without resetting sentInitMsg"
+		}
+		c.check(bad == "", rule, name+" kex before reset", at, "sentInitMsg is reset only after, and always after, the routine that sends NEWKEYS has returned", bad)
+	}
+	// ---- (b) one critical section: reset, flush and truncation
+	if len(flushes) == 0 || len(truncs) == 0 {
+		what := "no loop handing the elements of pendingPackets to the connection"
+		if len(flushes) > 0 {
+			what = "no store of an empty pendingPackets"
+		}
+		c.fail(rule, name, clears[0], what+" found in kexLoop or its helpers: queued packets are never flushed / would be sent again after the next key exchange")
+	} else {
+		held := true
+		unheld := ""
+		chk := func(what string, ns ...*c31Node) {
+			for _, n := range ns {
+				if n != nil && !g.held[n] {
 					held = false
+					unheld = what
 				}
 			}
-			// no Unlock between the clear and the truncation (one critical
-			// section); the wake-up itself may legally follow the Unlock but
-			// must happen before the loop re-locks or the function returns
-			isUnlock := func(in ssa.Instruction) bool {
-				p, d := lockOp(in)
-				return d < 0 && strings.HasSuffix(p, ".mu")
+		}
+		chk("resetting sentInitMsg", clears...)
+		chk("truncating the queue", truncs...)
+		var heads, snaps []*c31Node
+		for _, fl := range flushes {
+			chk("writing a queued packet", fl.write)
+			chk("reading the queue", fl.snap)
+			if fl.head != nil {
+				heads = append(heads, fl.head)
 			}
-			early := passBefore(clr, func(in ssa.Instruction) bool { return in == ssa.Instruction(trunc) }, isUnlock)
-			if early == nil {
-				early = passBefore(trunc, func(in ssa.Instruction) bool { return in == bc }, func(in ssa.Instruction) bool {
-					if p, d := lockOp(in); d > 0 && strings.HasSuffix(p, ".mu") {
-						return true
-					}
-					_, isRet := in.(*ssa.Return)
-					return isRet
-				})
+			if fl.snap != nil {
+				snaps = append(snaps, fl.snap)
 			}
-			order := precedes(eke[0], clr) && precedes(clr, trunc) && precedes(trunc, bc)
-			// flush precedes truncate on every path: truncation unreachable from clear without passing the flush loop header
-			h := innermostLoopHeader(push[0].Block())
-			flushFirst := h != nil && precedes(clr, h.Instrs[0]) && h.Dominates(trunc.Block())
-			c.check(held && early == nil && order && flushFirst, "C31.kex-complete", "(*handshakeTransport).kexLoop", clr,
-				"sentInitMsg is cleared, the queue flushed and truncated and waiters woken inside one critical section",
-				fmt.Sprintf("completion section broken: lock held at all four steps=%v, unlock before wake-up=%v, order clear<flush<truncate<broadcast=%v/%v", held, early != nil, flushFirst, order))
-			// in-order flush: pushPacket's argument is pendingPackets[i] with i a +1 index
-			inOrder := false
-			if u, ok := push[0].Common().Args[1].(*ssa.UnOp); ok {
-				if ia, ok := u.X.(*ssa.IndexAddr); ok && isField(ia.X, "handshakeTransport", "pendingPackets") {
-					idx := ia.Index
-					if bo, ok := idx.(*ssa.BinOp); ok && bo.Op == token.ADD {
-						if k, ok := constInt(bo.Y); ok && k == 1 {
-							if ph, ok := bo.X.(*ssa.Phi); ok {
-								for _, e := range ph.Edges {
-									if k, ok := constInt(e); ok && k == -1 {
-										inOrder = true
-									}
-								}
-							}
-						}
-					}
-					if ph, ok := idx.(*ssa.Phi); ok {
-						for _, e := range ph.Edges {
-							if k, ok := constInt(e); ok && k == 0 {
-								inOrder = true
-							}
-						}
-					}
+		}
+		in := func(set []*c31Node) func(*c31Node) bool {
+			m := map[*c31Node]bool{}
+			for _, n := range set {
+				m[n] = true
+			}
+			return func(n *c31Node) bool { return m[n] }
+		}
+		end := func(n *c31Node) bool { return c31IsUnlock(n) || isExit(n) }
+		locks := g.backTo(clears, func(n *c31Node) bool { return c31IsLock(n) || c31IsUnlock(n) || n == g.entry })
+		bad := ""
+		var at poser = clears[0]
+		switch {
+		case !held:
+			bad = "t.mu is not held while " + unheld
+		case len(locks) == 0:
+			bad = "the Lock that opens the completion section was not found"
+		default:
+			for _, l := range locks {
+				if !c31IsLock(l) {
+					bad = "sentInitMsg is reset on a path on which t.mu was not taken"
 				}
 			}
-			c.check(inOrder, "C31.kex-complete", "kexLoop flush order", push[0], "queued packets are written in queue order", "the pending queue is not flushed front to back")
+		}
+		if bad == "" {
+			if n := g.search(locks, true, nil, isClear, end); n != nil {
+				bad, at = "the critical section that completes a key exchange can be left without resetting sentInitMsg", n
+			} else if n := g.search(locks, true, nil, in(heads), end); n != nil || len(heads) == 0 {
+				bad = "t.mu is released between resetting sentInitMsg and flushing the pending queue (or the flush is skipped): a writer could overtake the queued packets"
+			} else if n := g.search(locks, true, nil, isTrunc, end); n != nil {
+				bad = "the critical section that completes a key exchange can be left without emptying pendingPackets (t.mu released before the truncation, or no truncation): queued packets would be written again after the next key exchange"
+			} else if n := g.search(truncs, true, nil, c31IsUnlock, in(snaps)); n != nil {
+				bad, at = "pendingPackets is emptied before the flush reads it: the queued packets are dropped", n
+			}
+		}
+		c.check(bad == "", rule, name, at,
+			"sentInitMsg is cleared, the queue flushed and truncated inside one critical section of t.mu",
+			"completion section broken: "+bad)
+		// in-order flush
+		detail := ""
+		for _, fl := range flushes {
+			if fl.detail != "" {
+				detail = fl.detail
+			}
+		}
+		c.check(detail == "", rule, "kexLoop flush order", flushes[0].write, "queued packets are written in queue order, the whole queue", detail)
+	}
+	// ---- (c) writers are woken after the reset
+	r.wakeAfter(g, clears, rule, "kexLoop wake-up", "sentInitMsg is reset", "followed by writeCond.Broadcast before kexLoop takes t.mu again or returns")
+}
+
+// wakeAfter: after each of the given nodes a writeCond.Broadcast is executed
+// before the goroutine takes t.mu again or leaves the root function.
+func (r *c31Run) wakeAfter(g *c31Graph, from []*c31Node, rule, construct, what, okDetail string) bool {
+	isBC := func(n *c31Node) bool { return c31CondOp(n, "Broadcast") }
+	isSig := func(n *c31Node) bool { return c31CondOp(n, "Signal") }
+	sink := func(n *c31Node) bool { return n == g.exit || c31IsLock(n) }
+	bad := g.search(from, true, nil, isBC, sink)
+	if bad == nil {
+		r.c.ok(rule, construct, from[0], okDetail)
+		return true
+	}
+	detail := what + " without waking the writers parked on writeCond: no writeCond.Broadcast before " + fnName(g.root) + " takes t.mu again or returns"
+	if s := g.search(from, true, nil, func(n *c31Node) bool { return isBC(n) || sink(n) }, isSig); s != nil {
+		detail = what + " and the writers parked on writeCond are woken with Signal, not Broadcast: only one of several blocked writers is released, the others stay blocked although the key exchange completed"
+		r.c.fail(rule, construct, s, detail)
+		return false
+	}
+	r.c.fail(rule, construct, from[0], detail)
+	return false
+}
+
+// ---------------------------------------------------------------------------
+// wake-ups
+
+// roots: the functions in whose expansion a store inside f has to be judged:
+// f itself when it can be entered from outside the statically known call
+// sites (exported, interface method, go/defer, method value, no caller), else
+// the roots of its callers.
+func (r *c31Run) roots(f *ssa.Function, depth int, seen map[*ssa.Function]bool) []*ssa.Function {
+	c := r.c
+	if r.invoked == nil {
+		r.invoked = map[string]bool{}
+		for _, g := range r.fns {
+			allInstrs(g, func(in ssa.Instruction) {
+				if cc := callCommon(in); cc != nil && cc.IsInvoke() {
+					r.invoked[cc.Method.Name()] = true
+				}
+			})
 		}
 	}
-	// ---- wake-ups
+	self := []*ssa.Function{f}
+	if seen[f] || depth >= c31MaxDepth || f.Object() == nil || f.Object().Exported() || f.Parent() != nil {
+		return self
+	}
+	if f.Signature.Recv() != nil && r.invoked[f.Name()] {
+		return self
+	}
+	sites := c.callersOf(f)
+	if len(sites) == 0 {
+		return self
+	}
+	seen[f] = true
+	var out []*ssa.Function
+	have := map[*ssa.Function]bool{}
+	for _, ci := range sites {
+		if _, isCall := ci.(*ssa.Call); !isCall || ci.Parent().Pkg != f.Pkg || !r.relevant(f) {
+			return self
+		}
+		for _, x := range r.roots(ci.Parent(), depth+1, seen) {
+			if !have[x] {
+				have[x] = true
+				out = append(out, x)
+			}
+		}
+	}
+	return out
+}
+
+func (r *c31Run) wakeRules() {
+	c := r.c
 	nSignal := 0
-	for _, f := range fns {
+	for _, f := range r.fns {
 		for _, ci := range callsNamed(f, "(*sync.Cond).Signal") {
-			if isField(ci.Common().Args[0], "handshakeTransport", "writeCond") {
+			if c31IsFieldLoad(ci.Common().Args[0], "writeCond") {
 				nSignal++
 				c.fail("C31.broadcast", "writeCond.Signal in "+fnName(f), ci, "writeCond is signalled, not broadcast: with several writers parked on a full queue only one is released and the others stay blocked after the key exchange completed")
 			}
@@ -219,48 +780,102 @@ func runC31(c *Ctx) {
 	if nSignal == 0 {
 		c.ok("C31.broadcast", "writeCond wake-ups", nil, "writeCond is only ever Broadcast")
 	}
-	for _, f := range fns {
-		if strings.HasPrefix(fnName(f), "new") {
-			continue
-		}
-		for i, st := range storesTo(f, "handshakeTransport", "writeError") {
-			isBC := func(in ssa.Instruction) bool {
-				return isCallTo(in, "(*sync.Cond).Broadcast") && isField(callCommon(in).Args[0], "handshakeTransport", "writeCond")
+	nStores := 0
+	for _, f := range r.fns {
+		for i, st := range storesTo(f, c31T, "writeError") {
+			if _, fresh := st.Addr.(*ssa.FieldAddr).X.(*ssa.Alloc); fresh {
+				continue // object under construction
 			}
-			// a wake-up may legally follow the Unlock; it must come before the
-			// function returns or takes the lock again
-			isRelease := func(in ssa.Instruction) bool {
-				if p, d := lockOp(in); d > 0 && strings.HasSuffix(p, ".mu") {
-					return true
+			nStores++
+			construct := fmt.Sprintf("writeError store#%d in %s", i, fnName(f))
+			okAll, found := true, false
+			var rootNames []string
+			for _, root := range r.roots(f, 0, map[*ssa.Function]bool{}) {
+				g := r.graph(root)
+				from := g.where(func(n *c31Node) bool { return n.in == ssa.Instruction(st) })
+				if len(from) == 0 {
+					continue
 				}
-				_, isRet := in.(*ssa.Return)
-				return isRet
-			}
-			bad := passBefore(st, isBC, isRelease)
-			c.check(bad == nil, "C31.error-wakes", fmt.Sprintf("writeError store#%d in %s", i, fnName(f)), st, "followed by writeCond.Broadcast before the function returns or re-locks", "writeError is set without waking writers parked on writeCond")
-		}
-	}
-	// ---- readLoop shutdown
-	if f := c.fn("ssh", "(*handshakeTransport).readLoop"); f != nil {
-		rec := callsNamed(f, "(*ssh.handshakeTransport).recordWriteError")
-		var cl []ssa.Instruction
-		for _, ci := range calls(f, nameIs("builtin:close")) {
-			if isField(ci.Common().Args[0], "handshakeTransport", "startKex") {
-				cl = append(cl, ci)
-			}
-		}
-		ok := len(rec) == 1 && len(cl) == 1
-		if ok {
-			for _, x := range []ssa.Instruction{rec[0], cl[0]} {
-				avoid := map[*ssa.BasicBlock]bool{x.Block(): true}
-				r := reachAvoiding([]*ssa.BasicBlock{f.Blocks[0]}, nil, avoid)
-				for _, rt := range returnsOf(f) {
-					if r[rt.Block()] {
-						ok = false
-					}
+				found = true
+				rootNames = append(rootNames, fnName(root))
+				isBC := func(n *c31Node) bool { return c31CondOp(n, "Broadcast") }
+				sink := func(n *c31Node) bool { return n == g.exit || c31IsLock(n) }
+				if g.search(from, true, nil, isBC, sink) != nil {
+					okAll = false
 				}
 			}
+			if !found {
+				c.fail("C31.error-wakes", construct, st, "the store was not found in the expansion of any top-level function that reaches it (helper nesting deeper than the rule follows)")
+				continue
+			}
+			c.check(okAll, "C31.error-wakes", construct, st,
+				"followed by writeCond.Broadcast before the goroutine takes t.mu again or leaves "+strings.Join(rootNames, " / "),
+				"writeError is set without waking writers parked on writeCond")
 		}
-		c.check(ok, "C31.shutdown", "(*handshakeTransport).readLoop", f, "every exit records the read error for writers and closes startKex", "readLoop can exit without recording the error / closing startKex (writers or kexLoop would hang)")
 	}
+	c.check(nStores > 0, "C31.error-wakes", "writeError stores", nil, fmt.Sprintf("%d stores judged", nStores), "no store to writeError found (anchor lost)")
 }
+
+// ---------------------------------------------------------------------------
+// readLoop shutdown
+
+func (r *c31Run) shutdownRule(f *ssa.Function) {
+	c := r.c
+	g := r.graph(f)
+	isRec := func(n *c31Node) bool { _, ok := c31Store(n, "writeError"); return ok && g.held[n] }
+	isClose := func(n *c31Node) bool {
+		cc := c31Call(n)
+		return cc != nil && calleeName(cc) == "builtin:close" && len(cc.Args) == 1 && c31IsFieldLoad(cc.Args[0], "startKex")
+	}
+	isExit := func(n *c31Node) bool { return n == g.exit }
+	// the store may be skipped when an error is already recorded or there is
+	// nothing to record (the value handed over is a nil readError)
+	skip := edgeSet{}
+	skip.addAll(g.nilEdges("writeError", false))
+	skip.addAll(g.nilEdges("readError", true))
+	for _, ctx := range g.ctxs {
+		for _, b := range ctx.fn.Blocks {
+			if len(b.Instrs) == 0 {
+				continue
+			}
+			iff, ok := b.Instrs[len(b.Instrs)-1].(*ssa.If)
+			if !ok {
+				continue
+			}
+			bo, ok := iff.Cond.(*ssa.BinOp)
+			if !ok || (bo.Op != token.EQL && bo.Op != token.NEQ) {
+				continue
+			}
+			var other ssa.Value
+			switch {
+			case isNilConst(bo.Y):
+				other = bo.X
+			case isNilConst(bo.X):
+				other = bo.Y
+			default:
+				continue
+			}
+			if _, v := c31Resolve(ctx, other); v != other && c31IsFieldLoad(v, "readError") {
+				k := 0 // edge on which other == nil
+				if bo.Op == token.NEQ {
+					k = 1
+				}
+				skip[edge{b, k}] = true
+			}
+		}
+	}
+	bad := ""
+	switch {
+	case len(g.where(isRec)) == 0:
+		bad = "readLoop never records the read error in writeError under t.mu"
+	case len(g.where(isClose)) == 0:
+		bad = "readLoop never closes startKex"
+	case g.search([]*c31Node{g.entry}, false, skip, isRec, isExit) != nil:
+		bad = "readLoop can exit without recording the error for writers (writers would hang)"
+	case g.search([]*c31Node{g.entry}, false, nil, isClose, isExit) != nil:
+		bad = "readLoop can exit without closing startKex (kexLoop would hang)"
+	}
+	c.check(bad == "", "C31.shutdown", fnName(f), f, "every exit records the read error for writers and closes startKex", bad)
+}
+
+var _ = types.Typ
